@@ -88,10 +88,36 @@ class window_sum_3d:
     ensures = {"shape": "all(result.shape[a] == image.shape[a] - window_shape[a] - 1 for a in range(3))"}
 
 
+_REPLAY_FINITE = '''
+import numpy as np, warnings
+warnings.simplefilter("ignore")
+from acryo.alignment import ZNCCAlignment, NCCAlignment
+from acryo.backend import Backend
+from acryo.backend._zncc import ncc_landscape_no_pad
+rng = np.random.default_rng(0)
+tmpl = rng.normal(size=(9, 9, 9)).astype(np.float32)
+ok = True
+for name, img in (("all-zero", np.zeros((13, 13, 13), np.float32)), ("constant", np.full((13, 13, 13), 2.5, np.float32))):
+    land = np.asarray(ncc_landscape_no_pad(img, tmpl, Backend()))
+    print(name, "image: landscape finite:", bool(np.isfinite(land).all()))
+    ok = ok and bool(np.isfinite(land).all())
+    for M in (ZNCCAlignment, NCCAlignment):
+        r = M(tmpl).align(img[2:11, 2:11, 2:11], (1.5, 1.5, 1.5))
+        print("  ", M.__name__, "score", r.score, "shift", r.shift)
+        ok = ok and bool(np.isfinite(r.score)) and bool(np.isfinite(r.shift).all())
+print("clause holds natively (finite landscape / score for windows without variance):", ok)
+print("CONFIRMED" if not ok else "NOT-CONFIRMED"); sys.exit(1 if not ok else 0)
+'''
+
+
 @contract("acryo.backend._zncc:ncc_landscape_no_pad", props=["C05", "C04"])
 class ncc_landscape_no_pad:
+    """shape of the landscape; and a finite value everywhere: the normalisation divides only where the window variance
+    is positive (`safety.finite_div`: no element of an array divisor is zero -- numpy would give nan / inf, not raise)"""
     params = dict(img0=_IMG, img1=_IMG, backend=T.Backend())
     requires = ["all(img0.shape[a] >= img1.shape[a] + 2 for a in range(3))"]
+    setup = staticmethod(lambda interp: setattr(interp, "finite_div", True))
+    replay = staticmethod(lambda ob, meta, model: _REPLAY_FINITE)
     result = lambda interp, bound: fresh_array("response", 3, "real", path=interp.path)
     ensures = {"shape": "all(result.shape[a] == img0.shape[a] - img1.shape[a] - 1 for a in range(3))"}
 
